@@ -98,7 +98,7 @@ pub fn build(p: &Params, bars: bool, prefix: Prefix, level: f64, zero_volume_str
         Prefix::AltDecades => mk_active(rng, plen, level, &mut inputs, &mut flags, false, true),
         Prefix::Short(k) => mk_active(rng, k, level, &mut inputs, &mut flags, false, false),
     }
-    let mut stretch = |len: usize, inputs: &mut Vec<In>, flags: &mut Vec<bool>, rng: &mut Rng| {
+    let stretch = |len: usize, inputs: &mut Vec<In>, flags: &mut Vec<bool>, rng: &mut Rng| {
         if zero_volume_stretch && bars {
             // moving prices, no volume: no money flow in the window
             let mut g = BarGen::new(BarStyle::Mixed, level / 30.0, rng.u64());
